@@ -6,9 +6,9 @@ ScriptOuts == {"ok", "e_retry", "e_next", "e_ignore", "e_rethrow", "e_unknown"}
 CoreOuts == {"ok", "e_retry", "e_next", "e_rethrow"}
 
 HostSeqs(maxH, kinds) == UNION {[1 .. n -> kinds] : n \in 0 .. maxH}
-PolNone == [kind |-> "none", n |-> 0, allow |-> {}]
-PolBudget(n) == [kind |-> "budget", n |-> n, allow |-> {}]
-PolScript(S) == [kind |-> "script", n |-> 0, allow |-> S]
+PolNone == [kind |-> "none", n |-> 0, allow |-> {}, name |-> "none"]
+PolBudget(n) == [kind |-> "budget", n |-> n, allow |-> {}, name |-> "simple"]
+PolScript(S) == [kind |-> "script", n |-> 0, allow |-> S, name |-> "script"]
 
 Cfgs(hostseqs, pols, outs, ks, idems, cancels) ==
   {[hosts |-> hs, pol |-> p, outs |-> outs, k |-> k, idem |-> i, cancel |-> cn, wire |-> FALSE] :
@@ -45,6 +45,7 @@ CfgLive == Cfgs({<<>>, <<"ok">>, <<"noconn", "ok">>, <<"ok", "ok">>}, {PolNone, 
 \* sequential: no speculation (k = 0 or not idempotent); deterministic up to the environment
 CfgSeq ==
   Cfgs(HostSeqs(3, {"ok", "noconn"}), {PolNone} \cup {PolBudget(n) : n \in 0 .. 2} \cup {PolScript({2})}, ScriptOuts, {0}, BOOLEAN, {"none"})
+  \cup Cfgs({<<"ok", "ok", "ok">>, <<"ok", "ok", "ok", "ok">>}, {PolBudget(3)}, CoreOuts, {0}, BOOLEAN, {"none"})
   \cup Cfgs(HostSeqs(2, {"ok", "down", "nopool"}), {PolBudget(1)}, CoreOuts, {1}, {FALSE}, {"none"})
   \cup Cfgs({<<"ok", "ok", "ok">>}, {PolBudget(2)}, CoreOuts, {1, 2}, {FALSE}, {"none", "deadline"})
   \cup Cfgs({<<"ok", "ok">>, <<"noconn", "ok", "ok">>}, {PolNone, PolBudget(1), PolBudget(2)}, CoreOuts, {0}, BOOLEAN, {"cancel", "deadline"})
